@@ -33,3 +33,5 @@ import SwcVerif.Props.C09Helpers
 #print axioms C09.generated_branch_detach
 #print axioms C09.generated_branch_detach_agrees
 #print axioms C09.generated_compartment_detach
+#print axioms C09.generated_tree_iter
+#print axioms C09.generated_tree_iter_live
